@@ -174,28 +174,31 @@ def kwPats : List Schema → List (Pat × Schema)
 def isAdditional (props : List (String × Schema)) (pats : List (Pat × Schema)) (patsJoinedEmpty : Bool) (k : String) : Bool :=
   !(props.any fun p => p.1 == k) && !(!patsJoinedEmpty && pats.any fun p => p.1.matches k)
 
+/-- `jsonschema` raises the first error it meets, in keyword / item order: the outcome of a sequence of
+    sub-validations is the first one that is not "valid" (a later crash is never reached) -/
+def seqAll (l : List (Option Bool)) : Option Bool :=
+  match l.find? (fun r => r != some true) with
+  | some r => r
+  | none => some true
+
+/-- `anyOf`: stops at the first valid sub-schema -/
+def seqAny (l : List (Option Bool)) : Option Bool :=
+  match l.find? (fun r => r != some false) with
+  | some r => r
+  | none => some false
+
+/-- `oneOf`: every sub-schema is evaluated; the number of valid ones -/
+def countValid (l : List (Option Bool)) : Option Nat :=
+  l.foldl (fun acc r => match acc, r with
+    | none, _ => none
+    | _, none => none
+    | some a, some b => some (if b then a + 1 else a)) (some 0)
+
 /-- `validate store fuel schema instance`: `some true` valid, `some false` invalid, `none` out of fuel or
     an unknown `$ref` -/
 def validate (store : Store) : Nat → Schema → Y → Option Bool
   | 0, _, _ => none
   | fuel + 1, s, y =>
-    -- `jsonschema` raises the first error it meets, in keyword / item order: the outcome of a sequence of
-    -- sub-validations is the first one that is not "valid" (a later crash is never reached)
-    let all (l : List (Option Bool)) : Option Bool :=
-      match l.find? (fun r => r != some true) with
-      | some r => r
-      | none => some true
-    -- `anyOf`: stops at the first valid sub-schema
-    let anyv (l : List (Option Bool)) : Option Bool :=
-      match l.find? (fun r => r != some false) with
-      | some r => r
-      | none => some false
-    -- `oneOf`: every sub-schema is evaluated
-    let count (l : List (Option Bool)) : Option Nat :=
-      l.foldl (fun acc r => match acc, r with
-        | none, _ => none
-        | _, none => none
-        | some a, some b => some (if b then a + 1 else a)) (some 0)
     -- one keyword, given the sibling `properties` / `patternProperties` of its schema object
     let kwv (props : List (String × Schema)) (pats : List (Pat × Schema)) (kw : Schema) : Option Bool :=
       match kw with
@@ -210,18 +213,18 @@ def validate (store : Store) : Nat → Schema → Y → Option Bool
       | .const v => some (pyEq y v)
       | .properties ps =>
         match y with
-        | .map m => all (ps.map fun (k, sub) => match kvGet k m with
+        | .map m => seqAll (ps.map fun (k, sub) => match kvGet k m with
             | some v => validate store fuel sub v
             | none => some true)
         | _ => some true
       | .patternProperties ps =>
         match y with
-        | .map m => all (ps.map fun (p, sub) => all (m.map fun (k, v) =>
+        | .map m => seqAll (ps.map fun (p, sub) => seqAll (m.map fun (k, v) =>
             if p.matches k then validate store fuel sub v else some true))
         | _ => some true
       | .additionalProperties sub =>
         match y with
-        | .map m => all (m.map fun (k, v) =>
+        | .map m => seqAll (m.map fun (k, v) =>
             if isAdditional props pats false k then validate store fuel sub v else some true)
         | _ => some true
       | .required ks =>
@@ -234,7 +237,7 @@ def validate (store : Store) : Nat → Schema → Y → Option Bool
         | _ => some true
       | .items sub =>
         match y with
-        | .seq xs => all (xs.map fun x => validate store fuel sub x)
+        | .seq xs => seqAll (xs.map fun x => validate store fuel sub x)
         | _ => some true
       | .minItems n => some (match y with | .seq xs => decide (n ≤ xs.length) | _ => true)
       | .maxItems n => some (match y with | .seq xs => decide (xs.length ≤ n) | _ => true)
@@ -248,16 +251,16 @@ def validate (store : Store) : Nat → Schema → Y → Option Bool
         | none => none
         | some true => match t with | some ts => validate store fuel ts y | none => some true
         | some false => match e with | some es => validate store fuel es y | none => some true
-      | .allOf ss => all (ss.map fun sub => validate store fuel sub y)
-      | .anyOf ss => anyv (ss.map fun sub => validate store fuel sub y)
-      | .oneOf ss => (count (ss.map fun sub => validate store fuel sub y)).map fun n => decide (n = 1)
+      | .allOf ss => seqAll (ss.map fun sub => validate store fuel sub y)
+      | .anyOf ss => seqAny (ss.map fun sub => validate store fuel sub y)
+      | .oneOf ss => (countValid (ss.map fun sub => validate store fuel sub y)).map fun n => decide (n = 1)
       | .not sub => (validate store fuel sub y).map fun b => !b
     match s with
     | .obj kws =>
       -- `$ref` hides its siblings (draft-07)
       match kws.find? (fun k => match k with | .ref _ => true | _ => false) with
       | some r => kwv [] [] r
-      | none => all (kws.map (kwv (kwProps kws) (kwPats kws)))
+      | none => seqAll (kws.map (kwv (kwProps kws) (kwPats kws)))
     | kw => kwv [] [] kw
 
 end BVM
